@@ -72,6 +72,10 @@ func (jwk JWK) Validate() error {
 			return errors.New("JWK x is missing")
 		}
 
+		// an elliptic curve public key has two coordinates (RFC 7518, 6.2.1)
+		if jwk.Kty() == "EC" && jwk.Y() == "" {
+			return errors.New("JWK y is missing")
+		}
 	}
 
 	return nil
